@@ -152,6 +152,68 @@ def offset_params(S, fn, known):
     return out
 
 
+def rule_cbe_free(rep, S, d, R="C02.cbe"):
+    """non-member functions that change a string passed by reference (operator>>): every member they call keeps the strong guarantee for itself, so the
+    function keeps it exactly if no member that may throw is called after a member that has modified the string"""
+    mt = may_throw_summary(S)
+    cid = S.cls.get("id")
+    n = 0
+    for fn in ir.functions(d):
+        if ir.is_template_pattern(d, fn) or ir.enclosing_class(d, fn) is not None or ir.body(fn) is None:
+            continue
+        tgt = [p for p in ir.params(fn) if "xbasic_fixed_string" in ir.qtype(p) and ir.qtype(p).rstrip().endswith("&") and not ir.qtype(p).rstrip().endswith("&&")
+               and not ir.qtype(p).startswith("const ")]
+        if not tgt:
+            continue
+        names = {p.get("name") for p in tgt}
+
+        def member_on_param(x):
+            """(target member, True) if x is a call of a member of this instantiation on one of the reference parameters"""
+            c = ir.strip(ir.ekids(x)[0])
+            if c.get("kind") == "MemberExpr":
+                t = d.by_id.get(c.get("referencedMemberDecl"))
+                base = ir.sx(ir.ekids(c)[0]) if ir.ekids(c) else None
+            else:
+                t = d.by_id.get((c.get("referencedDecl") or {}).get("id"))
+                base = ir.sx(ir.ekids(x)[1]) if len(ir.ekids(x)) > 1 else None
+            if t is None or base is None or not (base[0] == "ref" and base[1] in names) or (ir.enclosing_class(d, t) or {}).get("id") != cid:
+                return None
+            return t
+        if not any(x.get("kind") in ("CXXMemberCallExpr", "CXXOperatorCallExpr") and member_on_param(x) is not None for x in ir.walk_expr(fn)):
+            continue
+        lab = "%s %s(%s)" % (S.tag, fn.get("name"), ", ".join(fs.simple_type(ir.wtype(p)) for p in ir.params(fn)))
+        try:
+            paths = flow.function_paths(fn, with_ctor_inits=False)
+        except cj.AnalysisBroken as e:
+            rep.inconclusive(R, lab, "checks before effects", where=d.where(fn), detail=str(e))
+            continue
+        n += 1
+        bad = None
+        nmod = 0
+        for path in paths:
+            effect = None
+            for st in path:
+                if st[0] != "ev" or st[1].get("kind") not in ("CXXMemberCallExpr", "CXXOperatorCallExpr"):
+                    continue
+                x = st[1]
+                t = member_on_param(x)
+                if t is None:
+                    continue
+                if mt.get(t.get("id")) and effect is not None and bad is None:
+                    bad = (x, "`%s` may throw after `%s` has already modified the string: the caller sees a string that is neither the old nor the new value" % (
+                        d.text(x)[:50].replace("\n", " "), d.text(effect)[:50].replace("\n", " ")))
+                if not re.search(r"\)\s*const", ir.qtype(t)) and t.get("name") not in ("data", "begin", "end", "rbegin", "rend", "operator[]", "front", "back", "at"):
+                    if effect is None:
+                        effect = x
+                        nmod += 1
+        if bad:
+            rep.violates(R, lab, "checks before effects", where=d.where(bad[0]), detail=bad[1])
+        else:
+            rep.holds(R, lab, "checks before effects", where=d.where(fn), detail="%d paths" % len(paths), nontrivial=nmod > 0)
+    if n == 0:
+        rep.inconclusive(R, "%s operator>>" % S.tag, "checks before effects", detail="no non-member function modifying a string passed by reference was instantiated (anchor moved?)")
+
+
 def rule_pos(rep, S, R="C02.pos"):
     d = S.d
     access0 = fs.member_access(S.cls)
@@ -468,6 +530,7 @@ def run(tier):
         S = strs[tag]
         rep.unit("%s: %d member instantiations" % (tag, len(S.fns)))
         rule_cbe(rep, S)
+        rule_cbe_free(rep, S, d)
         rule_pos(rep, S)
         rule_pub(rep, S)
         rule_exc(rep, S, d)
